@@ -168,10 +168,22 @@ def run(ctx):
         log = [["circuit", n]]
         steps = int(rng.integers(1, max_steps + 1))
         check_at = set(rng.choice(steps, size=min(steps, 2), replace=False).tolist()) | {steps - 1}
+        aborted = False
         for i in range(steps):
-            b.primitive(c, log, n)
+            try:
+                b.primitive(c, log, n)
+            except Exception as e:  # noqa: BLE001 - every generated call is legal
+                ctx.violation(f"legal construction call raised {type(e).__name__}: {e}",
+                              case={"program": log, "failing_call": b.last},
+                              mechanism="legal_call_raised:" + type(e).__name__, monitor="program builder")
+                aborted = True
+                break
             if i in check_at:
                 check_circuit(ctx, c, log, rng)
+        if aborted:
+            ctx.case(key_of(log), False)
+            drain_into(ctx, {"program": log})
+            continue
         if rng.random() < 0.25:
             # the same components held as ONE group in a second circuit that is shared through copy() / +, then the
             # sharer is unpacked and extended: every circuit must still report the product of what was added to *it*
